@@ -53,7 +53,7 @@ type MapInto struct {
 func (f *MapInto) Call(s *slip.Scope, args slip.List, depth int) (result slip.Object) {
 	slip.CheckArgCount(s, depth, f, args, 2, -1)
 	rlist, ok := args[0].(slip.List)
-	if !ok {
+	if !ok && args[0] != nil {
 		slip.TypePanic(s, depth, "result-sequence", args[0], "list")
 	}
 	fn := args[1]
@@ -63,7 +63,7 @@ func (f *MapInto) Call(s *slip.Scope, args slip.List, depth int) (result slip.Ob
 	lists := make([]slip.List, len(args))
 	for i, arg := range args {
 		var list slip.List
-		if list, ok = arg.(slip.List); !ok {
+		if list, ok = arg.(slip.List); !ok && arg != nil {
 			slip.TypePanic(s, depth, "lists", arg, "list")
 		}
 		lists[i] = list
